@@ -15,6 +15,7 @@ import (
 	"fmt"
 	"math/rand"
 	"reflect"
+	"sort"
 	"strings"
 
 	"github.com/openconfig/goyang/pkg/yang"
@@ -305,6 +306,60 @@ func vdPruneStream(rng *rand.Rand, n int, tier string, out string) (*Summary, er
 				}
 			}
 			sum.sample(map[string]interface{}{"pkg": name, "leaves_before": len(lmBefore), "leaves_after": len(lmAfter)})
+
+			// ---- the same call on a struct inside the tree (a container or a list entry, possibly
+			// config false only by inheritance from a node above it), with the schema entry a user
+			// would pass: SchemaTree[<struct name>]
+			g2 := newTreeGen(rand.New(rand.NewSource(jb.TreeSeed)), p)
+			g2.pField = jb.PField
+			g2.nastyStr = false
+			root2 := g2.genTree()
+			var subs []reflect.Value
+			vdCollectStructs(reflect.ValueOf(root2), &subs, 0)
+			if len(subs) == 0 {
+				continue
+			}
+			pick := rand.New(rand.NewSource(jb.TreeSeed ^ 0x5bd1e995))
+			sub := subs[pick.Intn(len(subs))]
+			sst := sub.Type().Elem()
+			se := p.SchemaTree[sst.Name()]
+			sg, isGS := sub.Interface().(ygot.GoStruct)
+			if se == nil || !isGS {
+				continue
+			}
+			sbefore := treeTerm(sg)
+			swant := map[string]string{}
+			vdExpectedPruned(p.Flags["compress"], sub, se, "", swant)
+			serr, span := vdSafePrune(se, sg)
+			sres := coqErr
+			sin := map[string]interface{}{"pkg": name, "tree_seed": jb.TreeSeed, "p_field": jb.PField, "struct": sst.Name(), "inherited_config_false": !vdCfgIndependent(se)}
+			switch {
+			case span:
+				sres = coqPanic
+				sum.finding(Finding{Signature: "prunecf/panic", What: "PruneConfigFalse panics on a struct inside the tree: " + serr.Error(), Input: sin})
+			case serr == nil:
+				sres = coqOk(treeTerm(sg))
+			default:
+				sum.finding(Finding{Signature: "prunecf/error", What: "PruneConfigFalse fails on a struct inside a schema-conforming tree: " + serr.Error(), Input: sin})
+			}
+			vf.cf.add(fmt.Sprintf("PPruneAt %d %s %s %s", id, vdSideTerm(sst, se), sbefore, sres))
+			id++
+			sum.count("substruct", fmt.Sprintf("inherited-config-false=%v", !vdCfgIndependent(se)))
+			if serr != nil {
+				continue
+			}
+			sum.OracleRuns++
+			sAfter := leafMapOf(sg)
+			for _, k := range leafMapDiff(swant, sAfter, 6) {
+				switch {
+				case swant[k] == "" && sAfter[k] != "":
+					sum.finding(Finding{Signature: "prunecf/config-false-remains", What: "config false data remains after PruneConfigFalse on " + sst.Name() + ": " + k + " = " + sAfter[k], Input: sin})
+				case swant[k] != "" && sAfter[k] == "":
+					sum.finding(Finding{Signature: "prunecf/config-true-removed", What: "config true (or documented compressed) data was removed by PruneConfigFalse on " + sst.Name() + ": " + k + " = " + swant[k], Input: sin})
+				default:
+					sum.finding(Finding{Signature: "prunecf/value-changed", What: "value changed: " + k + ": " + swant[k] + " -> " + sAfter[k], Input: sin})
+				}
+			}
 		}
 		fs, err := vf.write(out, "prunecf", 150)
 		if err != nil {
@@ -315,4 +370,48 @@ func vdPruneStream(rng *rand.Rand, n int, tier string, out string) (*Summary, er
 	sum.Cases = id
 	sum.Extra = map[string]interface{}{"case_files": files}
 	return sum, nil
+}
+
+// vdCollectStructs lists the struct pointers below v (containers and list entries; not v itself).
+func vdCollectStructs(v reflect.Value, out *[]reflect.Value, depth int) {
+	if v.Kind() != reflect.Ptr || v.IsNil() || depth > 8 {
+		return
+	}
+	s := v.Elem()
+	if s.Kind() != reflect.Struct {
+		return
+	}
+	for i := 0; i < s.NumField(); i++ {
+		sf := s.Type().Field(i)
+		if _, ok := sf.Tag.Lookup("path"); !ok {
+			continue
+		}
+		fv := s.Field(i)
+		ft := sf.Type
+		switch {
+		case isOrderedMapType(ft):
+			if !fv.IsNil() {
+				for _, en := range orderedEntries(fv.Interface().(ygot.GoOrderedMap)) {
+					*out = append(*out, en.entry)
+					vdCollectStructs(en.entry, out, depth+1)
+				}
+			}
+		case ft.Kind() == reflect.Map && ft.Elem().Kind() == reflect.Ptr:
+			var ks []reflect.Value
+			it := fv.MapRange()
+			for it.Next() {
+				ks = append(ks, it.Key())
+			}
+			sort.Slice(ks, func(a, b int) bool { return lessKeys(keyValues(ks[a]), keyValues(ks[b])) })
+			for _, k := range ks {
+				*out = append(*out, fv.MapIndex(k))
+				vdCollectStructs(fv.MapIndex(k), out, depth+1)
+			}
+		case ft.Kind() == reflect.Ptr && ft.Elem().Kind() == reflect.Struct:
+			if !fv.IsNil() {
+				*out = append(*out, fv)
+				vdCollectStructs(fv, out, depth+1)
+			}
+		}
+	}
 }
